@@ -92,7 +92,7 @@ func c05Observe(obs *c05Obs, which int, s *Store, misbehave int) {
 	switch misbehave {
 	case 1:
 		s.W.WriteHeader(503)
-	case 2:
+	case 2, 3:
 		s.W.WriteHeader(500)
 		obs.idExit = string([]byte(s.GetID()))
 		panic("handler failed")
@@ -108,7 +108,9 @@ func c05NewMux(obs *c05Obs, misbehave *int) *Mux {
 	}
 	mux.HandleNoRoute(func(s *Store) { c05Observe(obs, -1, s, *misbehave) })
 	mux.HandleRelay(func(s *Store) {
-		defer func() { recover() }() // like logger.Relay: a panicking handler does not kill the server
+		if *misbehave != 3 {
+			defer func() { recover() }() // like logger.Relay: a panicking handler does not kill the server
+		}
 		s.I.HandlerFunc(s)
 	})
 	return mux
@@ -136,9 +138,15 @@ func c05Expect(req c05Req, lateRegistered bool) (int, []string) {
 	return route, want
 }
 
+// c05ServeHTTP: like net/http's conn.serve, a panic escaping ServeHTTP is recovered by the server
+func c05ServeHTTP(mux *Mux, w http.ResponseWriter, r *http.Request) {
+	defer func() { recover() }()
+	mux.ServeHTTP(w, r)
+}
+
 func c05Serve(mux *Mux, obs *c05Obs, req c05Req, late bool, seen []string) string {
 	*obs = c05Obs{handler: -2}
-	mux.ServeHTTP(&c05W{}, &http.Request{Method: http.MethodGet, URL: &url.URL{Path: req.path}})
+	c05ServeHTTP(mux, &c05W{}, &http.Request{Method: http.MethodGet, URL: &url.URL{Path: req.path}})
 	vxAssert(obs.calls == 1, "C05: not exactly one handler invocation")
 	route, want := c05Expect(req, late)
 	vxAssert(obs.handler == route, "C05: selected route depends on request history")
@@ -171,7 +179,7 @@ func H_C05_history() {
 		req := c05MkReq(vxPick(c05NReqs))
 		mis = 0
 		if i+1 < n {
-			mis = vxPick(3) // earlier requests may write a status or panic
+			mis = vxPick(4) // earlier requests may write a status, panic inside a recovering relay, or panic out of ServeHTTP
 		}
 		seen = append(seen, c05Serve(mux, obs, req, late, seen))
 	}
@@ -200,6 +208,28 @@ func H_C05_step() {
 	c05Serve(mux, obs, req, late, nil)
 	// the Store goes back to the pool satisfying the invariant again
 	vxAssert(st.W.Origin == nil && st.W.Status == 0 && st.R == nil && st.I == nil && st.P.K == nil && len(st.P.V) == 0 && len(st.id) == 9, "C05 (inductive step): the Store returned to the pool does not satisfy the pool invariant again")
+}
+
+// two Stores handed out at the same time share no mutable memory (what makes concurrent requests independent)
+func H_C05_distinct() {
+	obs := &c05Obs{}
+	mis := 0
+	mux := c05NewMux(obs, &mis)
+	a := mux.storePool.New().(*Store)
+	b := mux.storePool.New().(*Store)
+	vxAssert(a != b && a.W != b.W && a.P != b.P, "C05: two pooled Stores share a component")
+	vxAssert(cap(a.id) > 0 && cap(b.id) > 0 && &a.id[:1][0] != &b.id[:1][0], "C05: two pooled Stores share the request-ID buffer")
+	if cap(a.P.V) > 0 && cap(b.P.V) > 0 {
+		vxAssert(&a.P.V[:1][0] != &b.P.V[:1][0], "C05: two pooled Stores share the parameter-value buffer")
+		vxReach("distinct parameter buffers")
+	}
+	// and serving a request with one of them does not touch the other
+	a.id = append(a.id, "in-flight"...)
+	snapshot := string(a.id)
+	mux.storePool.Put(b)
+	vxPoolMode(1)
+	c05Serve(mux, obs, c05MkReq(0), false, nil)
+	vxAssert(string(a.id) == snapshot, "C05: serving a request changed the ID of a Store that is in use elsewhere")
 }
 
 func H_C05_vacuity() {
